@@ -64,7 +64,66 @@ def gen_cases(seed, tier):
                 if tier == "quick" and n == 4 and rng.random() < 0.6:
                     continue
                 cases.append(dec(env, t, bytes(tup)))
+    cases += [dec(None, t, b) for t, b in calendar_grid(rng, tier)]
     return cases, pool, rng
+
+
+def _vu(v):
+    out = bytearray()
+    while True:
+        if v < 128:
+            out.append(v)
+            return bytes(out)
+        out.append((v & 0x7f) | 0x80)
+        v >>= 7
+
+
+def _vi(v):
+    return _vu(((v << 1) ^ (v >> 31)) & 0xffffffff)
+
+
+def calendar_grid(rng, tier):
+    """the boundary of every predicate of coq/Calendar.v (chrono's acceptance conditions written out as oracles):
+    each side of each bound is decoded by chrono itself and by the model"""
+    out = []
+    P = G.P
+    years = [G.MIN_YEAR - 1, G.MIN_YEAR, G.MAX_YEAR, G.MAX_YEAR + 1, -1, 0, 1, 4, 100, 400, 1900, 2000, 2023, 2024, 2100,
+             (1 << 31) - 1, -(1 << 31)]
+    for y in years:
+        for m in (0, 1, 2, 3, 4, 6, 9, 11, 12, 13, 255):
+            for d in (0, 1, 28, 29, 30, 31, 32, 255):
+                out.append((P("ndate"), _vu(y & 0xffffffff) + bytes([m, d])))
+    nss = [0, 999_999_999, 1_000_000_000, 1_999_999_999, 2_000_000_000, (1 << 32) - 1]
+    for h in (0, 23, 24, 255):
+        for mi in (0, 59, 60):
+            for sec in (0, 58, 59, 60):
+                for ns in nss:
+                    out.append((P("ntime"), bytes([h, mi, sec]) + _vu(ns)))
+    for secs in (G.MIN_TS - 1, G.MIN_TS, G.MIN_TS + 59, G.MAX_TS, G.MAX_TS + 1, -1, 0, 59, 60, -61, (1 << 63) - 1, -(1 << 63)):
+        for ns in nss:
+            out.append((P("dt_utc"), (secs & ((1 << 64) - 1)).to_bytes(8, "big") + ns.to_bytes(4, "big")))
+    for ty in (0, 1, 2, 255):
+        for off in (0, 86399, 86400, -86399, -86400, (1 << 31) - 1, -(1 << 31)):
+            out.append((P("fixedoffset"), bytes([ty]) + _vi(off)))
+        for name in ("UTC", "utc", "Europe/Budapest", "Europe/Budapes", "", "Etc/GMT+12", "GMT0", "\u00e9"):
+            nb = name.encode()
+            out.append((P("tz"), bytes([ty]) + _vi(len(nb)) + nb))
+    for b in range(256):
+        out.append((P("weekday"), bytes([b])))
+        out.append((P("month"), bytes([b])))
+    # date-times at both ends of the range under offsets that push the instant in or out
+    def ndt(y, mo, d, h, mi, sec, ns=0):
+        return _vu(y & 0xffffffff) + bytes([mo, d, h, mi, sec]) + _vu(ns)
+    ends = [(G.MIN_YEAR, 1, 1, 0, 0, 0), (G.MIN_YEAR, 1, 1, 0, 0, 1), (G.MIN_YEAR, 1, 1, 23, 59, 59), (G.MIN_YEAR, 1, 2, 0, 0, 0),
+            (G.MAX_YEAR, 12, 31, 23, 59, 59), (G.MAX_YEAR, 12, 31, 23, 59, 58), (G.MAX_YEAR, 12, 31, 0, 0, 0), (G.MAX_YEAR, 12, 30, 23, 59, 59)]
+    for e in ends:
+        for off in (0, 1, -1, 3600, -3600, 86399, -86399):
+            out.append((P("dt_fixed"), ndt(*e) + bytes([0]) + _vi(off)))
+        out.append((P("dt_tz"), ndt(*e) + bytes([1]) + _vi(3) + b"UTC"))
+        out.append((P("dt_tz"), ndt(*e) + bytes([1]) + _vi(10) + b"Asia/Tokyo"))
+        out.append((P("dt_local"), ndt(*e)))
+        out.append((P("ndt"), ndt(*e, ns=1_999_999_999)))
+    return out
 
 
 def run_side_with_hangs(exe, cases, wd, tag, extra, limit_note):
